@@ -1369,6 +1369,10 @@ class PlainQuantity(Generic[MagnitudeT], PrettyIPython, SharedRegistryObject):
         if self._units == other._units:
             return eq(self._magnitude, other._magnitude, False)
 
+        if self.dimensionality != other.dimensionality:
+            # (an active context could convert between them: still not equal)
+            return bool_result(False)
+
         try:
             return eq(
                 self._convert_magnitude_not_inplace(other._units),
